@@ -261,6 +261,7 @@ class Engine:
         self.loop = None
         self.threads = []
         self.thread_errors = []
+        self.callback_errors = []
         self.pending_kind = {}
         self.procs = {}
         self.procs_by_name = {}
@@ -477,7 +478,9 @@ class Engine:
 
     def after_step(self, lab):
         if self.loop.exceptions:
-            raise MachineryError(f"exception in loop callback: {self.loop.exceptions[0]}")
+            # asyncio logs and swallows an exception raised by a callback: the step happened, partially
+            self.callback_errors.append(repr(self.loop.exceptions[0].get("exception")))
+            self.loop.exceptions.clear()
         self.record(lab[0], lab[1])
 
     # ------------------------------------------------------------ classification of handles
@@ -671,6 +674,10 @@ class Engine:
             self.waiter = "ok"
         except FailedExperiment:
             self.waiter = "failed"
+        except SchedulerDeath:
+            raise
+        except Exception as e:
+            self.waiter = "EXC:" + type(e).__name__
         self.phase = "closed"
         self.record("WaitReturn", {"r": self.waiter})
 
@@ -678,8 +685,13 @@ class Engine:
         key = self.reg_key(name)
         job = self.jobs[key]
         self.record("JobWaitCall", {"j": key})
-        r = job.wait()
-        self.record("JobWaitReturn", {"j": key, "r": r.name})
+        try:
+            r = job.wait().name
+        except SchedulerDeath:
+            raise
+        except Exception as e:
+            r = "EXC:" + type(e).__name__
+        self.record("JobWaitReturn", {"j": key, "r": r})
 
     def run(self):
         """Runs the plan; returns the trace record"""
@@ -734,6 +746,7 @@ class Engine:
             "events": self.trace,
             "verdict": verdict,
             "thread_errors": self.thread_errors,
+            "callback_errors": self.callback_errors,
         }
 
     # ------------------------------------------------------------ projection
@@ -764,12 +777,23 @@ class Engine:
                 return getattr(sub._fut_waiter, "xv_kind", "?")
         return getattr(sub._fut_waiter, "xv_kind", "evwait")
 
+    @staticmethod
+    def task_result(fut):
+        if fut is None or not fut.done():
+            return "-"
+        if fut.task.exception() is not None:
+            return "EXC:" + type(fut.task.exception()).__name__
+        r = fut.task.result()
+        return getattr(r, "name", str(r))
+
     def waiter_state(self):
         t = self.waiter_task
         if t is None or self.phase == "dead":
             return "none"
         if t.done():
-            return "failed" if t.exception() is not None else "ok"
+            if t.exception() is None:
+                return "ok"
+            return "failed" if isinstance(t.exception(), FailedExperiment) else "EXC:" + type(t.exception()).__name__
         for h in self.loop.pending():
             if self.classify(h)[0] == "WaiterStep":
                 return "start" if t._fut_waiter is None else "woken"
@@ -788,7 +812,7 @@ class Engine:
                     "ev": bool(getattr(job, "_readyEvent", None) and job._readyEvent.is_set()),
                     "dstat": sorted([self.origin_name(d), d.currentstatus.name] for d in job.dependencies),
                     "held": sorted(self.held.get(key, {})),
-                    "result": (fut.task.result().name if fut is not None and fut.done() else "-"),
+                    "result": self.task_result(fut),
                     "pc": self.inst_pc(key, job),
                 }
         st["insts"] = insts
